@@ -11,6 +11,7 @@ void *memcpy(void *dst, const void *src, size_t n)
     ((unsigned char *)dst)[i] = ((const unsigned char *)src)[i];
   return dst;
 }
+#  ifndef VP_MEMMOVE_BUILTIN
 void *memmove(void *dst, const void *src, size_t n)
 {
   size_t i;
@@ -24,6 +25,7 @@ void *memmove(void *dst, const void *src, size_t n)
   }
   return dst;
 }
+#  endif
 #  ifdef VP_MEMSET_LOOP
 /* only for harnesses whose memset sizes are symbolic (see DESIGN R1) */
 void *memset(void *dst, int c, size_t n)
